@@ -107,6 +107,15 @@ def _cells(paths):
             if m:
                 ch = m.group(1)[1]
                 bounds |= {ord(ch), ord(ch) + 1}
+    if any(re.match(r"(str|truthy):.*\.isprintable\(\)$", k) for pr in paths for k in pr.assign):
+        # str.isprintable() is not an interval property: refine the partition at every change of its
+        # value (table of the analysing interpreter's unicodedata; a few hundred runs)
+        prev = None
+        for cp in range(0x110000):
+            cur = chr(cp).isprintable()
+            if cur != prev:
+                bounds.add(cp)
+                prev = cur
     bs = sorted(b for b in bounds if 0 <= b <= 0x110000)
     return [(a, b - 1) for a, b in zip(bs, bs[1:])]
 
@@ -125,9 +134,12 @@ def _holds(key, value, lo, hi, qm):
     m = re.match(r"eq:.*==('.'|\".\")$", key)
     if m:
         return lo == hi == ord(m.group(1)[1])
-    m = re.match(r"str:.*\.(isprintable|isascii)\(\)$", key)
+    m = re.match(r"(?:str|truthy):.*\.(isprintable|isascii)\(\)$", key)
     if m:
-        return None
+        if m.group(1) == "isascii":
+            return hi < 0x80 if hi < 0x80 or lo >= 0x80 else None
+        vals = {chr(lo).isprintable(), chr(hi).isprintable()}
+        return vals.pop() if len(vals) == 1 else None
     return None
 
 
@@ -750,7 +762,9 @@ def rule_r6(ctx):
             merged[-1][1] = hi
         else:
             merged.append([lo, hi])
-    for lo, hi in merged:
+    if len(merged) > 3:
+        rr.note(f"{len(merged)} ranges are escaped although raw is safe; the first three are reported")
+    for lo, hi in merged[:3]:
         cell = f"U+{lo:04X}..U+{hi:04X}"
         rr.fail(
             f"C04-R6|{cell}|escaped-although-raw-is-safe",
